@@ -44,7 +44,6 @@ def stAgree (c : XRat → XRat → Bool) (m i : St) : Bool :=
   all2 i.S i.A (fun s a => c (get2 m.R s a) (get2 i.R s a)) &&
   all3 i.A i.S i.O (fun a s o => c (get3 m.Om a s o) (get3 i.Om a s o))
 
-/-- slack used by the property clause: the library tolerance plus 1e-9 for double rounding of the sum -/
 /-- the documented tolerance ("off by rounding": 1e-6, Utils/Core.hpp).  The property clauses are evaluated with THIS number, not with
     the regenerated `tol` the model follows (equal today: theorem `tolerance_is_documented`), so that a widened library tolerance
     yields a failing input (a stored row that is no distribution) and not only a broken obligation -/
